@@ -655,7 +655,12 @@ pub fn elgamal_challenge<R: RefSuite>(pk: &R::Pk, gen: &R::Pk, c1: &R::Pk, c2: &
 }
 
 pub fn elgamal_verify<R: RefSuite>(pk: &R::Pk, c1: &R::Pk, c2: &R::Pk, mp: &Scalar, bp: &Scalar, ch: &Scalar) -> bool {
-    let gen = elgamal_generator::<R>();
+    elgamal_verify_gen::<R>(pk, &elgamal_generator::<R>(), c1, c2, mp, bp, ch)
+}
+
+/// with an explicit message generator (the transcript binds the generator actually used)
+pub fn elgamal_verify_gen<R: RefSuite>(pk: &R::Pk, gen: &R::Pk, c1: &R::Pk, c2: &R::Pk, mp: &Scalar, bp: &Scalar, ch: &Scalar) -> bool {
+    let gen = *gen;
     if bool::from(pk.is_identity()) || bool::from(c1.is_identity()) || bool::from(c2.is_identity()) {
         return false;
     }
@@ -669,7 +674,11 @@ pub fn elgamal_verify<R: RefSuite>(pk: &R::Pk, c1: &R::Pk, c2: &R::Pk, mp: &Scal
 
 /// prover with explicit randomness (blinder b, nonce r)
 pub fn elgamal_prove<R: RefSuite>(pk: &R::Pk, m: &Scalar, b: &Scalar, r: &Scalar) -> (R::Pk, R::Pk, Scalar, Scalar, Scalar) {
-    let gen = elgamal_generator::<R>();
+    elgamal_prove_gen::<R>(pk, &elgamal_generator::<R>(), m, b, r)
+}
+
+pub fn elgamal_prove_gen<R: RefSuite>(pk: &R::Pk, gen: &R::Pk, m: &Scalar, b: &Scalar, r: &Scalar) -> (R::Pk, R::Pk, Scalar, Scalar, Scalar) {
+    let gen = *gen;
     let c1 = R::Pk::generator() * b;
     let c2 = *pk * b + gen * m;
     let r1 = R::Pk::generator() * r;
